@@ -262,6 +262,43 @@ def run(tier, seed):
               [fr(o["recall"]), fr(o["fa"]), fr(o["rpa"]), fr(o["rca"]), fr(o["oa"])], d)
         ev.case(("melk", r["ref"], r["est"], r["hop"], r["kind"]), nontrivial=r["ref"]["t"] != r["est"]["t"] or bool(r["hop"]))
     ev.sample({"model": "MC_C04_melk", "row": krow[len(krow) // 2]})
+    # velocity-aware note matching: Velocity.tla (normalisation over all reference notes, least-squares rescaling of the
+    # matched estimates, strict tolerance); the note matching itself is the identity here (identical, separated notes)
+    res = tlc.run("MC_Velocity", cfg="MC_Velocity_T" if thorough else "MC_Velocity", timeout=3400, heap="8g")
+    vrow = res["rows"]["ROW"]
+    if len(vrow) * 2 != res["distinct"]:
+        raise Machinery("MC_Velocity: %d rows for %d states" % (len(vrow), res["distinct"]))
+    ev.tlc("MC_Velocity", res, "Velocity.tla; invariants NormalEq (least-squares normal equations), TolMonotone, AffinePerfect")
+    tv = me.transcription_velocity
+    for k, r in enumerate(vrow):
+        if not thorough and (k + seed) % 3:
+            continue
+        n = len(r["rv"])
+        nref = n + len(r["nx"])
+        ri = np.array([[float(i), i + 0.5] for i in range(nref)])
+        ei = ri[:n].copy()
+        rp, epp = np.full(nref, 440.0), np.full(n, 440.0)
+        rvel, evel = np.array(r["rv"] + r["nx"], dtype=float) / r["u"], np.array(r["evl"], dtype=float) / r["u"]
+        for o in r["out"].values():
+            tol = o["tol"][0] / float(o["tol"][1])
+            d = {"ref_velocities": rvel.tolist(), "est_velocities": evel.tolist(), "velocity_tolerance": tol, "matched_pairs": n}
+            total += 1
+            try:
+                got = sorted(int(i) + 1 for i, j in tv.match_notes(ri, rp, rvel, ei, epp, evel, velocity_tolerance=tol))
+                okset = set(o["keep"]) <= set(got) <= set(o["keep"]) | set(o["tie"])
+                if not okset:
+                    rep.violation("transcription_velocity.match_notes", "kept-pairs-differ", dict(d, got=got, expected=o["keep"], on_tolerance=o["tie"]))
+                elif not o["tie"]:
+                    p_, r_, f_, _ = tv.precision_recall_f1_overlap(ri, rp, rvel, ei, epp, evel, velocity_tolerance=tol)
+                    want = (len(o["keep"]) / float(n), len(o["keep"]) / float(nref))
+                    if abs(p_ - want[0]) > 1e-9 or abs(r_ - want[1]) > 1e-9:
+                        rep.violation("transcription_velocity.precision_recall_f1_overlap", "value-differs", dict(d, got=[p_, r_], expected=list(want)))
+                else:
+                    skipped += 1
+            except Exception as ex:  # noqa
+                rep.violation("transcription_velocity.match_notes", "raised-" + type(ex).__name__, dict(d, message=str(ex)[:200]))
+        ev.case(("velocity", r["rv"], r["evl"], r["nx"]), nontrivial=n >= 2 and len(set(r["evl"])) > 1)
+    ev.sample({"model": "MC_Velocity", "row": vrow[len(vrow) // 2]})
     # pattern discovery scores
     res = tlc.run("MC_C04_pattern", cfg="MC_C04_pattern", timeout=3000, heap="8g")
     prow = res["rows"]["ROW"]
